@@ -27,18 +27,17 @@ def gwPick (a b : String) (l : Fields) : Fields :=
 
 theorem construct_pair (valid : String → JVal → Bool) (a b : String) (va vb : JVal)
     (ha : a ∈ names labels) (hb : b ∈ names labels)
-    (hva : inDomain .strOrList va = true ∧ valid a va = true) (hvb : inDomain .strOrList vb = true ∧ valid b vb = true) :
+    (hva : inDomain labels.guard va = true ∧ valid a va = true) (hvb : inDomain labels.guard vb = true ∧ valid b vb = true) :
     construct labels valid [(a, va), (b, vb)] = .ok (setF (setF (defaults labels) a va) b vb) := by
   have ga := guard_of_inDomain _ _ hva.1
   have gb := guard_of_inDomain _ _ hvb.1
-  have hg : labels.guard = .strOrList := rfl
   have ca : (names labels).contains a = true := by simpa using ha
   have cb : (names labels).contains b = true := by simpa using hb
-  simp only [construct, setFields, hg, ga, gb, ca, cb, hva.2, hvb.2, if_true]
+  simp only [construct, setFields, ga, gb, ca, cb, hva.2, hvb.2, if_true]
 
 theorem labels_field_set (valid) (l : Fields) (hl : WellTyped labels valid l) (a : String)
     (ha : a ∈ names labels) (hs : isSet (l a) = true) :
-    inDomain .strOrList (l a) = true ∧ valid a (l a) = true := by
+    inDomain labels.guard (l a) = true ∧ valid a (l a) = true := by
   obtain ⟨f, hf, rfl⟩ := List.mem_map.1 ha
   have hd : f.dflt = .null := (by decide : ∀ f ∈ labels.fields, f.dflt = JVal.null) f hf
   rcases hl.1 f hf with ⟨he, _⟩ | h
